@@ -22,17 +22,17 @@ chk("C01", "cal", "model_checking",
     "Trusted: the odometer model (days-in-month table, leap rule, 1970-01-01 = Thursday); its 400-year periodicity is checked by walking, not assumed. Not every one of the 1.36e17 instants is visited: completeness rests on the (cycle, day-in-cycle, second) factorisation, which is itself probed at every cycle's seams and on day-by-day stretches.",
     "bounded exhaustive state enumeration of an odometer model, every state compared with the implementation", "DESIGN.md 5/C01")
 chk("C02", "cal", "model_checking",
-    "Same walk as C01: at every state UtcDateTime::new must accept, unix_time() must equal the model's count, both round trips must be the identity, consecutive date-times must be strictly ordered (derived Ord and unix time), second 60 must equal the next minute's second 0; all (month 0..13, day 0..32) per year and products of time fields decide acceptance and error kind; year seam for every i32 year in the thorough tier.",
-    "Trusted: odometer model. Error kind is compared for single-defect inputs only (precedence among simultaneous defects is unspecified).",
+    "Same walk as C01: at every state UtcDateTime::new must accept, unix_time() must equal the model's count, both round trips must be the identity, consecutive date-times must be strictly ordered (derived Ord and unix time), second 60 must equal the next minute's second 0; all (month 0..13, day 0..32) per year and products of time fields decide acceptance (the error kind of a refusal is recorded in evidence, not judged: the statement says refused); year seam for every i32 year in the thorough tier.",
+    "Trusted: odometer model. Which error a refusal carries is not part of the statement and is not judged.",
     "bounded exhaustive state enumeration of an odometer model, every state compared with the implementation", "DESIGN.md 5/C02")
 
 chk("C03", "table", "exploration",
-    "Bounded-exhaustive enumeration of table zones (every table length 0..64 [300 thorough] x 3 time layouts incl. i64 extremes x type-index patterns, all 3^n index sequences for n<=6 [9] x 7 leap tables x {no rule, fixed, DST rule}) probed at every transition -3..+3, leap records, 0 and i64 extremes; each lookup compared with a linear-scan zone model, DateTime::from_timespec fields with the calendar model, owned zone with borrowed zone.",
+    "Bounded-exhaustive enumeration of table zones (every table length 0..64 [300 thorough] x 3 time layouts incl. i64 extremes x type-index patterns, all 3^n index sequences for n<=6 [9] x 7 leap tables x {no rule, fixed, DST rule}) probed at every transition -3..+3, leap records, 0 and i64 extremes; each lookup compared with a linear-scan zone model, DateTime::from_timespec fields with the calendar model, owned zone with borrowed zone. Leap tables by length (2..129 records; 1000 thorough) x sign pattern x last record at / within the correction of / far from i64::MAX x 3 transition layouts.",
     "Trusted: linear-scan zone model, calendar model. Outside the supported instant range an OutOfRange refusal is accepted in place of the model's answer (I4). Tables longer than the bound and other time layouts are not explored.",
     "bounded exhaustive enumeration of zone shapes x probe instants against a reference model", "DESIGN.md 5/C03")
 chk("C04", "rule", "exploration",
-    "Every accepted interleaving rule of the alphabet (56 boundary day notations squared x 12 time/offset combinations; thorough: all 1151x1151 notation pairs and the full 9x9x9 time/offset product) probed over 400 consecutive years at S(y)-1,S(y),S(y)+1,E(y)-1,E(y),E(y)+1, UTC and local New Years and period middles, compared with the rule-timeline model (rule days resolved by walking the calendar); extreme years; string path.",
-    "Trusted: rule timeline model, calendar model. Times of day and offsets come from fixed finite alphabets (not all 1.2M seconds). Finding KF1 was repaired (/repo commit d153b13) and is no longer suppressed; its witness is re-executed on every run.",
+    "Every accepted interleaving rule of the alphabet (56 boundary day notations squared x 12 time/offset combinations; thorough: all 1151x1151 notation pairs and the full 9x9x9 time/offset product) probed over 400 consecutive years at S(y)-1,S(y),S(y)+1,E(y)-1,E(y),E(y)+1, UTC and local New Years and period middles, compared with the rule-timeline model (rule days resolved by walking the calendar); extreme years; string path; time_grid: every pair of 187 day times at +-(2^k-1, 2^k, 2^k+1) and whole-hour marks on 8 day pairs, every pair of 147 such UTC offsets (525 000 rules).",
+    "Trusted: rule timeline model, calendar model. Times of day and offsets come from finite alphabets (boundary values, and every numeric threshold +-2^k with its neighbours; not all 1.2M seconds). Finding KF1 was repaired (/repo commit d153b13) and is no longer suppressed; its witness is re-executed on every run.",
     "bounded exhaustive enumeration of rules x instants against a reference model", "DESIGN.md 5/C04")
 chk("C05", "find", "model_checking",
     "Inverse-clock model: for every zone of the enumerated alphabets (tiny world: every <=4-subset of 6 transition times x all 3^n type sequences x 4^3 offsets x {no rule, fixed}; leap-second tiny world; real-scale tables with day/year carries and i32-extreme offsets; rule-only zones; table+rule junctions) and every local reading of its window, the valid results of DateTime::find_n must be exactly the instants at which the model clock shows that reading (candidate-set formulation cross-checked against a brute-force walk of every instant), with literal fields, re-projection and uniqueness.",
@@ -60,11 +60,11 @@ chk("C18", "fmt", "exploration",
     "bounded exhaustive enumeration of inputs with an independent reader as oracle", "DESIGN.md 5/C18")
 
 chk("C07", "nopanic", "exploration",
-    "Supervised child processes (crash/hang attributed to the in-flight chunk) with a counting allocator run: every symbol string up to length 5 (6) through 3 decoding paths; one-edit deviations, numeric bombs and 100 KB inputs for 30 core sentences; every truncation and 6 byte values at every offset of every distinct corpus file (1341 files); hostile header counts singly and in pairs, extreme time fields; boundary-value products through every public constructor, query, getter and Display on 659 zones with extreme transitions/leap records; every accepted input is then used. Both with overflow checks + debug assertions and without.",
+    "Supervised child processes (crash/hang attributed to the in-flight chunk) with a counting allocator run: every symbol string up to length 5 (6) through 3 decoding paths; one-edit deviations, numeric bombs and 100 KB inputs for 30 core sentences; every truncation and 6 byte values at every offset of every distinct corpus file (1341 files); hostile header counts singly and in pairs, extreme time fields; boundary-value products through every public constructor, query, getter and Display on 659 zones with extreme transitions/leap records; every accepted input is then used; products: leap-table length x sign pattern x last record near i64::MAX x transition layout (2016 zones), and configured directories (0..3000) x name length (1..65 536) under the allocation bound. Both with overflow checks + debug assertions and without.",
     "Oracle is 'returns a value or an error within the allocation and time bounds'; values are not judged here. Inputs outside the enumerated deviation bound are not explored. Allocation bound: peak live bytes <= 8 x input + 4 KiB per parser call, single request <= 1 GiB.",
     "deviation-bounded exhaustive enumeration of hostile inputs under a fault-observing supervisor", "DESIGN.md 5/C07")
 chk("C08", "tzif", "exploration",
-    "Independent writer: 1728 zone shapes (counts, designation pools with shared/overlapping/empty strings, indicator layouts, 32/64-bit extreme times, footers) encoded as v1/v2/v3 with a different zone in the 32-bit block of v2+ files, decoded zone compared with TimeZone::new(expected parts); independent reader: all 1796 corpus files (fat + slim, incl. right/ and v3); every corruption class of the property applied to the synthesised files must be rejected (error kind compared where the class determines it); every truncation and 6 byte values at every offset of the corpus files (1.0 M mutants quick) decoded by both the implementation and the independent reader, which must agree on acceptance and on the decoded zone; well-formed files with up to 300 000 transitions / 1000 leap records / 256 types.",
+    "Independent writer: 1728 zone shapes (counts, designation pools with shared/overlapping/empty strings, indicator layouts, 32/64-bit extreme times, footers) encoded as v1/v2/v3 with a different zone in the 32-bit block of v2+ files, decoded zone compared with TimeZone::new(expected parts); independent reader: all 1796 corpus files (fat + slim, incl. right/ and v3); every corruption class of the property applied to the synthesised files must be rejected (the error kind is recorded, not judged: the statement says rejected); every truncation and 6 byte values at every offset of the corpus files (1.0 M mutants quick) decoded by both the implementation and the independent reader, which must agree on acceptance and on the decoded zone; well-formed files with up to 300 000 transitions / 1000 leap records / 1000 types, with a transition to every type index an octet can name.",
     "Trusted: the independent writer/reader (RFC 8536) and the TZ-string recogniser. One slim corpus file (America/Ojinaga as produced by this image's zic) violates RFC 8536 3.3 (footer inconsistent with last transition) and is expected to be refused (C13); it is listed in evidence. Finding KF4 (single-newline footer accepted) was repaired by /repo commit 80cdbde; every truncation incl. every cut inside the footer is judged.",
     "bounded exhaustive enumeration of file shapes and single-field corruptions against an independent codec", "DESIGN.md 5/C08")
 chk("C09", "tzstr", "model_checking",
@@ -93,8 +93,8 @@ chk("C10", "py/e2e.py + tzmc dump", "exploration",
     "Oracles are external (python3 3.11 zoneinfo, glibc of this image). Written exclusions, listed in evidence: files without footer after their last transition (I6); one slim file whose footer contradicts its last transition (RFC 8536 3.3); TZ-string instants within 2 days of New Year (glibc evaluates rules per calendar year).",
     "complete enumeration of transition-adjacent instants on a real corpus against two independent reference implementations", "DESIGN.md 5/C10")
 chk("C15", "hist (tzmc) + conc (shuttle)", "model_checking",
-    "History exploration: every sequence of <= 3 operations over a 32-op collision alphabet (33 824 histories; thorough adds all length-4 histories over 16 ops) in one process; after every operation the result digest must equal the run-alone digest from a fresh process (under 4 TZ/TZDIR environments), no byte of the executable's .data/.bss/TLS may change, no getenv call may occur, raw bytes of all shared values must be unchanged. Schedule exploration: shuttle check_dfs explores ALL interleavings of 2 threads x 2 ops (every ordered pair per thread over 12 ops) and 3 threads x 1 op (10 804 bodies, 214 k schedules) on a copy of the crate whose std::sync / core::sync::atomic / thread_local! uses are rerouted to shuttle's, oracle: every op returns its run-alone result; a failing schedule is replayed twice.",
-    "I9: the structural clauses ('no static', 'no interior mutability') are decided through their observable consequences; hidden state that no explored operation ever writes is invisible. Primitives the rewriting cannot reroute (nested-brace imports, OnceLock/LazyLock, Cell-based statics) are counted in evidence; if the rerouted copy does not compile the unrerouted copy is explored at operation granularity and evidence says so. Monitors are self-tested on every run (injected static write, TLS write, getenv).",
+    "History exploration: every sequence of <= 3 operations over a 32-op collision alphabet (33 824 histories; thorough adds all length-4 histories over 16 ops) in one process; after every operation the result digest must equal the run-alone digest from a fresh process (under 4 TZ/TZDIR environments), no byte of the executable's .data/.bss/TLS may change, no store into .data/.bss may happen at all (write trap: the pages are read-only during the operation, every store is logged through SIGSEGV + single step, so a value written and restored is seen), no getenv call and no libc call that changes process-wide state (environment, current directory, file system, child processes, signal dispositions, standard input) may occur, raw bytes of all shared values must be unchanged. Schedule exploration: shuttle check_dfs explores ALL interleavings of 2 threads x 2 ops (every ordered pair per thread over 12 ops) and 3 threads x 1 op (10 804 bodies, 214 k schedules) on a copy of the crate whose std::sync / core::sync::atomic / thread_local! uses are rerouted to shuttle's, oracle: every op returns its run-alone result; a failing schedule is replayed twice.",
+    "I9: the structural clauses ('no static', 'no interior mutability') are decided through their observable consequences; hidden state that no explored operation ever writes is invisible. Primitives the rewriting cannot reroute (nested-brace imports, OnceLock/LazyLock, Cell-based statics) are counted in evidence; if the rerouted copy does not compile the unrerouted copy is explored at operation granularity and evidence says so. Monitors are self-tested on every run (injected static write, restored static write, TLS write, getenv, setenv, chdir, file creation / removal, child process, sigaction). The write trap covers .data/.bss; the TLS block is compared by snapshot only (its pages hold libc's and the kernel's per-thread data).",
     "exhaustive history-tree enumeration with write monitors + exhaustive DFS schedule exploration under a controlled scheduler (shuttle)", "DESIGN.md 5/C15")
 chk("C19", "check_c19 + tzmc", "exploration",
     "tz-rs is built with no features, with alloc and with std; the harness is built against each; the deterministic workloads of 11 allocation-free engines (C01-C05, C11-C14, C16, C18 workloads) run in all three configurations and of 3 alloc-level engines (C08, C09, C20) in alloc and std, in digest mode: the exit status of each engine's own oracle and the order-independent result digests must be identical across configurations (thorough: both build profiles).",
